@@ -25,13 +25,57 @@ ANISO_ORDER = ["11", "22", "33", "23", "13", "12"]
 EIGHT_PI2 = 8 * N.PI * N.PI
 
 
+# Numbers of the model blocks are abstract texts (any spelling without parenthesis, blank or letter) -- or, in a SPELLED run,
+# concrete literals in one of the spellings the CIF grammar allows for a number, each atom with a value of its own.  The
+# abstract run covers every value at once but can only follow text operations that do not look inside a number (find('('),
+# slices, split); the spelled runs fold whatever the reader does with the characters (regular expressions, partition, ...).
+SPELL = [None]
+SPELLINGS = ("plain", "negative", "exponent", "Exponent+", "leading-dot", "plus", "integer")
+_VALUES = {}
+
+
+def _k(atom):
+    if atom not in _VALUES:
+        _VALUES[atom] = 137 + 17 * len(_VALUES)
+    return _VALUES[atom]
+
+
+def spelled(atom):
+    """(literal, exact value) of the number `atom` in the current spelling"""
+    k = _k(atom)
+    style = SPELL[0]
+    if atom in ("m0", "m1"):                       # multiplicities are integers in every file
+        return "%d" % (2 + k % 7), Fraction(2 + k % 7)
+    if style == "plain":
+        return "0.%03d" % (k % 1000), Fraction(k % 1000, 1000)
+    if style == "negative":
+        return "-0.%03d" % (k % 1000), Fraction(-(k % 1000), 1000)
+    if style == "exponent":
+        k = k % 1000
+        return "%d.%02de-01" % (k // 100, k % 100), Fraction(k, 1000)
+    if style == "Exponent+":
+        k = k % 1000
+        return "0.%05dE+02" % k, Fraction(k, 1000)
+    if style == "leading-dot":
+        return ".%03d" % (k % 1000), Fraction(k % 1000, 1000)
+    if style == "plus":
+        return "+0.%03d" % (k % 1000), Fraction(k % 1000, 1000)
+    if style == "integer":
+        return "%d" % (k % 1000), Fraction(k % 1000)
+    raise AnalysisError("unknown spelling %r" % style)
+
+
 def txt(atom, esd=None):
     """the CIF text of a number, e.g. 0.1234(5)"""
+    if SPELL[0] is not None:
+        return spelled(atom)[0] + ("(%s)" % esd if esd else "")
     num_atom(atom, "float")
     return SStr([Text(atom)] + (["(", esd, ")"] if esd else [])).simplify()
 
 
 def val(atom):
+    if SPELL[0] is not None:
+        return Rat.const(spelled(atom)[1])
     return Rat.atom(atom)
 
 
@@ -164,21 +208,12 @@ def run(ctx):
         mod.method("build_atomlist", m_)
         ctx.saw(mod, "build_atomlist." + m_)
     where = core.loc(mod, mod.method("build_atomlist", "CIFread"))
-    # ---- remove_esd
     rwhere = core.loc(mod, mod.method("build_atomlist", "remove_esd"))
-    r = Reader(mod, [])
-    got1 = r.outcome("remove_esd", txt("q", "12"))
-    got2 = r.outcome("remove_esd", txt("q"))
-    got3 = r.outcome("remove_esd", "1.25(3)")
-    ctx.check(got1 == ("ok", got1[1]) and same(got1[1], val("q")) and got2[0] == "ok" and same(got2[1], val("q"))
-              and got3[0] == "ok" and same(got3[1], Rat.const(Fraction(5, 4))), "C17:esd:remove_esd",
-              "remove_esd is not float(a) / float(a[:a.find('(')]): 'q(12)' -> %s, 'q' -> %s, '1.25(3)' -> %s"
-              % (okey(got1[1]), okey(got2[1]), okey(got3[1])), rwhere)
     # ---- CIFread over ADP types x multiplicity keys
     nsc = 0
-    for t0 in (None, "Biso", "Bani", "Uiso", "Uani"):
-        for multi in ("new", "old", "none"):
-            nsc += 1
+
+    def scenario(t0, multi, pre=""):
+        if True:
             t1 = {"Uani": "Biso", "Bani": "Uiso"}.get(t0, "Uani")          # the second site has another type
             mlog = []
             r = Reader(mod, mlog)
@@ -187,15 +222,15 @@ def run(ctx):
             if t0 is None:
                 del blk["_atom_site_adp_type"]          # no ADP type column at all: every site has type None
                 t1 = None
-            tag = "%s/%s" % (t0, multi)
+            tag = "%s%s/%s" % (pre, t0, multi)
             kind, exc = r.outcome("CIFread", cifblk=blk)
             if kind != "ok":
                 ctx.fail("C17:cif:%s:reads" % tag, "CIFread raises %s on a well-formed block" % exc, where)
-                continue
+                return
             atoms = r.atomlist.attrs.get("atom")
             if not isinstance(atoms, list) or len(atoms) != 2 or not all(isinstance(a, Obj) for a in atoms):
                 ctx.fail("C17:cif:%s:count" % tag, "two sites in the block, %s atoms in the list" % (len(atoms) if isinstance(atoms, list) else atoms), where)
-                continue
+                return
             for k, (a, tk) in enumerate(zip(atoms, (t0, t1))):
                 A = a.attrs
                 pos3 = [val("x%d" % k), val("y%d" % k), val("z%d" % k)]
@@ -216,15 +251,46 @@ def run(ctx):
                           "without a multiplicity column symmulti is not multiplicity([x, y, z], <space group symbol>) of the site", where)
             if t0 is None and multi == "new":
                 al = r.atomlist.attrs
-                ctx.check(same(al.get("cell"), [val(a_) for a_ in ("ca", "cb", "cc", "cal", "cbe", "cga")]), "C17:cif:cell",
+                ctx.check(same(al.get("cell"), [val(a_) for a_ in ("ca", "cb", "cc", "cal", "cbe", "cga")]), "C17:cif:%scell" % pre,
                           "cell is %s" % okey(al.get("cell")), where)
-                ctx.check(al.get("sgname") == "P21/c", "C17:cif:sgname",
+                ctx.check(al.get("sgname") == "P21/c", "C17:cif:%ssgname" % pre,
                           "space-group symbol is %s, not the H-M symbol with white space removed" % okey(al.get("sgname")), where)
                 disp = al.get("dispersion")
                 okp = isinstance(disp, dict) and set(disp) == {"O", "FE"} and same(disp["O"], [val("fpO"), val("fppO")]) \
                     and same(disp["FE"], [val("fpFe"), val("fppFe")])
-                ctx.check(okp, "C17:cif:dispersion-loop",
+                ctx.check(okp, "C17:cif:%sdispersion-loop" % pre,
                           "dispersion of an atom type is not [esd(real), esd(imag)] of the atom-type loop: %s" % okey(disp), where)
+    # the spelled runs first: what they decide stands even if the abstract run below meets a text operation it cannot follow
+    ctx.rule("spelling", "CIFread on the same blocks with every number written out in each spelling of the CIF grammar "
+                         "(plain, signed, exponent, leading dot, integer): every field is the literal's value")
+    for style in SPELLINGS:
+        SPELL[0] = style
+        try:
+            for t0, multi in ((None, "new"), ("Uani", "old"), ("Bani", "none")):
+                scenario(t0, multi, "spelled:%s:" % style)
+                nsc += 1
+            r_ = Reader(mod, [])
+            lit_, v_ = spelled("q")
+            g1 = r_.outcome("remove_esd", lit_ + "(12)")
+            g2 = r_.outcome("remove_esd", lit_)
+            ctx.check(g1[0] == "ok" and same(g1[1], Rat.const(v_)) and g2[0] == "ok" and same(g2[1], Rat.const(v_)),
+                      "C17:esd:spelled:%s" % style, "remove_esd(%r) -> %s, remove_esd(%r) -> %s ; the number written is %s"
+                      % (lit_ + "(12)", okey(g1[1]), lit_, okey(g2[1]), float(v_)), rwhere)
+        finally:
+            SPELL[0] = None
+    # ---- remove_esd
+    r = Reader(mod, [])
+    got1 = r.outcome("remove_esd", txt("q", "12"))
+    got2 = r.outcome("remove_esd", txt("q"))
+    got3 = r.outcome("remove_esd", "1.25(3)")
+    ctx.check(got1 == ("ok", got1[1]) and same(got1[1], val("q")) and got2[0] == "ok" and same(got2[1], val("q"))
+              and got3[0] == "ok" and same(got3[1], Rat.const(Fraction(5, 4))), "C17:esd:remove_esd",
+              "remove_esd is not float(a) / float(a[:a.find('(')]): 'q(12)' -> %s, 'q' -> %s, '1.25(3)' -> %s"
+              % (okey(got1[1]), okey(got2[1]), okey(got3[1])), rwhere)
+    for t0 in (None, "Biso", "Bani", "Uiso", "Uani"):
+        for multi in ("new", "old", "none"):
+            nsc += 1
+            scenario(t0, multi)
     ctx.extra["cif_scenarios"] = nsc
     # no atom-type loop / unreadable dispersion / no occupancy column
     r = Reader(mod, [])
@@ -344,6 +410,8 @@ def run(ctx):
                         "site multiplicity values themselves (C15)"]
     ctx.assumptions += ["IUCr core CIF dictionary key names; wwPDB format v3.3 column table",
                         "a number's text contains no parenthesis, blank or letter; float(text of x) == x"]
+    from xfabsa import numeric as _NH
+    _NH.hazard_rule(ctx, 'C17')
     return ("CIFread evaluated by E7 on two-site model blocks for %d configurations (5 ADP types x 3 multiplicity-key cases, the second "
             "site of another type, the anisotropic loop in reverse order): every attribute of every atom, the cell, the symbol and the "
             "dispersion table compared with the meaning of the CIF keys; remove_esd on symbolic and literal text; CIFopen on seven "
